@@ -45,7 +45,8 @@ class Table:
 
     def subscript(self, ex, st, e, recv, idx):
         if recv.kind == 'obj' and recv.f.get('cls') == 'dictable' and idx.kind in ('tuple', 'colspec'):
-            ex.use('assumed contract:dictable.__getitem__(tuple of key columns / key functions) is the list of the rows\' key tuples, one per row (C01)')
+            ex.use('assumed contract:dictable.__getitem__(tuple of key columns / key functions) is the list of the rows\' key tuples, one per row (C01: proved for tuples of 1..3 '
+                   'column names, __getitem__.tuple*; assumed for key functions)')
             ks = self.key_list(recv.name)
             ex.fact(ks.t >= 0)
             return ks
@@ -164,7 +165,7 @@ def listby_obligations(ctx, m):
         else:
             G, rl = res.t, row.t
             keys, rlen, rows = res.arrs
-            ra, = row.arrs
+            ra = row.arrs[0] if row.f.get('arrs') else IA(fresh_name('untyped_empty_row'))     # `row = []`: an empty list without element type yet
         S = start_of(END, G)
         g, h, j, p = Ints('g!inv h!inv j!inv p!inv')
         cl = [('bounds', And(0 <= k, k <= n, G >= 0, 0 <= rl, rl <= k)),
